@@ -11,6 +11,16 @@
 (* silent at any moment (they neither send nor process), and the silent    *)
 (* set changes over time.                                                   *)
 (*                                                                         *)
+(* Recovery traffic (RecoveryRequest / RecoveryMessage) is not a separate   *)
+(* action: a RecoveryMessage re-delivers payloads its sender knows, which   *)
+(* Deliver already allows for every payload at any time.  The binding       *)
+(* exercises it on the real services (the harness loses every direct        *)
+(* payload of one type so that only recovery can carry it).                 *)
+(* Dead end of dBFT 2.0 (CommitLock): a validator that committed in view v  *)
+(* never leaves v; once another validator is past v the two can never       *)
+(* count each other - DBFTTrace exempts exactly that situation from the     *)
+(* Progress judgement of a height left over from an asynchronous period.    *)
+(*                                                                         *)
 (* Safety judged: Agreement - no two validators accept different blocks.   *)
 (* Progress: with nobody silent and every payload eventually delivered     *)
 (* and timers eventually firing, every validator eventually accepts.       *)
